@@ -311,8 +311,15 @@ def grammar(rep):
     with open(path, encoding='utf-8') as fh:
         tree = ast.parse(fh.read())
     pat = None
+    # the property pattern is the module-level compiled pattern whose findall() builds the properties in _parse (whatever its name)
+    pname = '_prop_re'
+    for fn_ in tree.body:
+        if isinstance(fn_, ast.FunctionDef) and fn_.name == '_parse':
+            for c_ in ast.walk(fn_):
+                if isinstance(c_, ast.Call) and isinstance(c_.func, ast.Attribute) and c_.func.attr == 'findall' and isinstance(c_.func.value, ast.Name):
+                    pname = c_.func.value.id
     for st in tree.body:
-        if isinstance(st, ast.Assign) and len(st.targets) == 1 and isinstance(st.targets[0], ast.Name) and st.targets[0].id == '_prop_re' \
+        if isinstance(st, ast.Assign) and len(st.targets) == 1 and isinstance(st.targets[0], ast.Name) and st.targets[0].id == pname \
                 and isinstance(st.value, ast.Call) and st.value.args:
             try:
                 pat = ast.literal_eval(st.value.args[0])
@@ -320,7 +327,7 @@ def grammar(rep):
                 pat = None
             line = st.lineno
     if not isinstance(pat, str):
-        raise AnalysisError('%s: _prop_re is not a literal pattern' % FILE)
+        raise AnalysisError('%s: the property pattern %s is not a literal pattern' % (FILE, pname))
     try:
         t = P.parse(pat)
     except Exception as e:
@@ -331,13 +338,13 @@ def grammar(rep):
         if op is C.SUBPATTERN and groups.get(av[0]) == 'value':
             val = list(av[3])
     if val is None:
-        raise AnalysisError('%s: _prop_re has no group named value' % FILE)
+        raise AnalysisError('%s: the property pattern %s has no group named value' % (FILE, pname))
     ok = len(val) == 1 and val[0][0] in (C.MAX_REPEAT, C.MIN_REPEAT) and val[0][1][0] == 0 and val[0][1][1] == C.MAXREPEAT
     if ok:
         inner = list(val[0][1][2])
         ok = len(inner) == 1 and ((inner[0][0] is C.NOT_LITERAL and inner[0][1] == ord('"')) or
                                   (inner[0][0] is C.IN and inner[0][1][0] == (C.NEGATE, None) and inner[0][1][1:] == [(C.LITERAL, ord('"'))]))
-    rep.check(ok, 'DT.grammar', FILE, '_prop_re', pat, line,
+    rep.check(ok, 'DT.grammar', FILE, pname, pat, line,
               'the value of a property is not `any run of characters other than the quote, possibly empty` ([^"]*): properties with an empty or '
               'unusual value are dropped from the entry without an error', what='value = [^"]*')
 
@@ -373,6 +380,13 @@ def check_layout(rep, methods, funcs, names):
         okb = t in ("%s, %s = %s.split('-')" % (y[2], y[3], r), "(%s, %s) = %s.split('-')" % (y[2], y[3], r)) and \
             f in ('%s, %s = (%s, %s)' % (y[2], y[3], r, r), '%s = %s = %s' % (y[2], y[3], r), '%s = %s = %s' % (y[3], y[2], r), '(%s, %s) = (%s, %s)' % (y[2], y[3], r, r))
         where = branch[0]
+    elif any(isinstance(st, ast.Assign) and isinstance(st.value, ast.IfExp) and src(st.targets[0]) in ('%s, %s' % (y[2], y[3]), '(%s, %s)' % (y[2], y[3]))
+             for st in rng_loop.body):
+        # the same decision as a conditional expression
+        st = next(st for st in rng_loop.body if isinstance(st, ast.Assign) and isinstance(st.value, ast.IfExp))
+        ie = st.value
+        where = st
+        okb = src(ie.test) == "'-' in %s" % r and src(ie.body) == "%s.split('-')" % r and src(ie.orelse) == '(%s, %s)' % (r, r)
     else:
         # the same decision inside a private helper: low, high = <helper>(range)
         for st in rng_loop.body:
